@@ -182,8 +182,12 @@ class MarginRule(cssrule.CSSRule):
         ok, seq, store, unused = ProdParser().parse(cssText, 'MarginRule', prods)
 
         if ok:
-            # TODO: use seq for serializing instead of fixed stuff?
-            self._setSeq(seq)
+            # new empty style, set only if everything else is ok too
+            newStyle = CSSStyleDeclaration(parentRule=self)
+
+            if 'styletokens' in store:
+                # may raise:
+                newStyle.cssText = store['styletokens']
 
             if 'margin' in store:
                 # may raise:
@@ -194,12 +198,9 @@ class MarginRule(cssrule.CSSRule):
                     error=xml.dom.InvalidModificationErr,
                 )
 
-            # new empty style
-            self.style = CSSStyleDeclaration(parentRule=self)
-
-            if 'styletokens' in store:
-                # may raise:
-                self.style.cssText = store['styletokens']
+            # TODO: use seq for serializing instead of fixed stuff?
+            self._setSeq(seq)
+            self.style = newStyle
 
     cssText = property(
         fget=_getCssText,
